@@ -29,6 +29,10 @@ type C08Step struct {
 	HasCat   bool     `json:"has_cat,omitempty"`
 	Target   int      `json:"target,omitempty"` // resave / search: index into the model (mod length)
 	Short    bool     `json:"short_flags,omitempty"`
+	// Respell (re-save only): keep everything of the stored entry but change how the keyword / platform
+	// lists are split (each multi-word item becomes several items, or all items become one): the lists
+	// differ although their words are the same
+	Respell int `json:"respell,omitempty"` // 0 no, 1 split items on spaces, 2 join items with a space
 }
 
 type C08Case struct {
@@ -98,6 +102,7 @@ func genC08(rt *rapid.T) C08Case {
 		st.Pipeline = rapid.Bool().Draw(rt, "pipeline")
 		st.Target = rapid.IntRange(0, 20).Draw(rt, "target")
 		st.Short = rapid.Bool().Draw(rt, "short")
+		st.Respell = rapid.SampledFrom([]int{0, 0, 1, 2}).Draw(rt, "respell")
 		return st
 	})
 	c.Steps = rapid.SliceOfN(stepGen, 1, tierN(10, 25)).Draw(rt, "steps")
@@ -227,7 +232,32 @@ func runC08(c C08Case) *Outcome {
 				if len(model) == 0 {
 					continue
 				}
-				cmd = model[st.Target%len(model)].Command
+				tgt := model[st.Target%len(model)]
+				cmd = tgt.Command
+				if st.Respell != 0 && !tgt.Pipeline {
+					// same description, category and pipeline flag; only the list structure changes
+					desc, cat = tgt.Description, tgt.Niche
+					st.HasCat = tgt.Niche != ""
+					st.Pipeline = false
+					respell := func(in []string) []string {
+						var out []string
+						if st.Respell == 1 {
+							for _, it := range in {
+								out = append(out, strings.Fields(it)...)
+							}
+						} else if len(in) > 0 {
+							out = []string{strings.Join(in, " ")}
+						}
+						var ok []string
+						for _, it := range out {
+							if it != "" && !strings.ContainsAny(it, ",\"\r\n") {
+								ok = append(ok, it)
+							}
+						}
+						return ok
+					}
+					kws, plats = respell(tgt.Keywords), respell(tgt.Platform)
+				}
 			}
 			pipe := st.Kind == "savepipe" || (st.Kind == "resave" && st.Pipeline && st.Short)
 			var args []string
